@@ -19,13 +19,26 @@ pub(crate) mod vk {
 
     #[cfg(not(kani))]
     pub(crate) trait Replay: Sized {
-        fn from_bytes(b: &[u8]) -> Self;
+        fn take() -> Self;
+    }
+    /// next recorded value (Kani records one byte vector per primitive `kani::any()`; arrays are recorded per element)
+    #[cfg(not(kani))]
+    fn next_bytes(n: usize) -> Vec<u8> {
+        VALUES.with(|c| {
+            let mut g = c.borrow_mut();
+            let idx = g.1;
+            g.1 += 1;
+            let mut b = if idx < g.0.len() { g.0[idx].clone() } else { Vec::new() };
+            b.resize(n.max(b.len()), 0);
+            b
+        })
     }
     #[cfg(not(kani))]
     macro_rules! impl_replay_int {
         ($($t:ty),*) => {$(
             impl Replay for $t {
-                fn from_bytes(b: &[u8]) -> Self {
+                fn take() -> Self {
+                    let b = next_bytes(core::mem::size_of::<$t>());
                     let mut a = [0u8; core::mem::size_of::<$t>()];
                     a.copy_from_slice(&b[..core::mem::size_of::<$t>()]);
                     <$t>::from_le_bytes(a)
@@ -37,17 +50,16 @@ pub(crate) mod vk {
     impl_replay_int!(u8, u16, u32, u64, usize, i8, i16, i32, i64, isize);
     #[cfg(not(kani))]
     impl Replay for bool {
-        fn from_bytes(b: &[u8]) -> Self {
-            b[0] & 1 == 1
+        fn take() -> Self {
+            next_bytes(1)[0] & 1 == 1
         }
     }
     #[cfg(not(kani))]
     impl<T: Replay + Copy + Default, const N: usize> Replay for [T; N] {
-        fn from_bytes(b: &[u8]) -> Self {
-            let sz = core::mem::size_of::<T>();
+        fn take() -> Self {
             let mut out = [T::default(); N];
             for i in 0..N {
-                out[i] = T::from_bytes(&b[i * sz..(i + 1) * sz]);
+                out[i] = T::take();
             }
             out
         }
@@ -79,19 +91,7 @@ pub(crate) mod vk {
     }
     #[cfg(not(kani))]
     pub(crate) fn any<T: Replay>() -> T {
-        VALUES.with(|c| {
-            let mut g = c.borrow_mut();
-            let idx = g.1;
-            g.1 += 1;
-            if idx >= g.0.len() {
-                // the solver left this value unconstrained: any value will do
-                let z = vec![0u8; core::mem::size_of::<T>().max(1)];
-                return T::from_bytes(&z);
-            }
-            let mut b = g.0[idx].clone();
-            b.resize(core::mem::size_of::<T>().max(b.len()), 0);
-            T::from_bytes(&b)
-        })
+        T::take()
     }
     #[cfg(not(kani))]
     pub(crate) fn assume(c: bool) {
@@ -173,6 +173,52 @@ pub(crate) mod vk {
         fn read(&mut self, out: &mut [u8]) -> Result<usize> {
             let avail = self.len - self.pos;
             let n = if out.len() < avail { out.len() } else { avail };
+            let mut i = 0;
+            while i < n {
+                out[i] = self.buf[self.pos + i];
+                i += 1;
+            }
+            self.pos += n;
+            Ok(n)
+        }
+    }
+
+    /// `io_any`: a source that may deliver short reads, `Interrupted`, or a hard error at a chosen call index.
+    /// Every behaviour `std::io::Read::read` allows (except delivering more than asked) is possible on every call.
+    pub(crate) struct IoAny<const N: usize> {
+        pub(crate) buf: [u8; N],
+        pub(crate) len: usize,
+        pub(crate) pos: usize,
+        pub(crate) calls: usize,
+        pub(crate) fail_at: usize,
+        pub(crate) interrupts_left: u8,
+        pub(crate) short: bool,
+    }
+    impl<const N: usize> IoAny<N> {
+        pub(crate) fn new(buf: [u8; N], len: usize) -> Self {
+            Self { buf, len, pos: 0, calls: 0, fail_at: usize::MAX, interrupts_left: 0, short: false }
+        }
+    }
+    impl<const N: usize> Read for IoAny<N> {
+        fn read(&mut self, out: &mut [u8]) -> Result<usize> {
+            let call = self.calls;
+            self.calls += 1;
+            if call == self.fail_at {
+                return Err(Error::from(std::io::ErrorKind::ConnectionReset));
+            }
+            if self.interrupts_left > 0 && any::<bool>() {
+                self.interrupts_left -= 1;
+                return Err(Error::from(std::io::ErrorKind::Interrupted));
+            }
+            let avail = self.len - self.pos;
+            let want = if out.len() < avail { out.len() } else { avail };
+            let n = if self.short && want > 1 {
+                let k: usize = any();
+                assume(k >= 1 && k <= want);
+                k
+            } else {
+                want
+            };
             let mut i = 0;
             while i < n {
                 out[i] = self.buf[self.pos + i];
